@@ -10,12 +10,18 @@ import sys
 sys.path.insert(0, VERIF)
 
 
+# properties whose check the lead has run and accepted (an unfinished module is not claimed)
+READY = ["C01", "C04", "C14", "C17"]
+
+
 def load_claims():
     """Each finished property module vlib/cXX.py carries a CLAIM dict
     {text, design_ref, note, technique}."""
     out = {}
     for i in range(1, 21):
         pid = "C%02d" % i
+        if pid not in READY:
+            continue
         if os.path.exists(os.path.join(VERIF, "vlib", pid.lower() + ".py")):
             m = importlib.import_module("vlib." + pid.lower())
             if getattr(m, "CLAIM", None):
